@@ -1,6 +1,6 @@
 (** C02 — RPC delivery integrity, pairing and at-most-once handling. *)
-From AnemoVerif Require Import Base Utf8 Bincode Status Wire Rpc.
-From AnemoVerif.Proofs Require Import Rpc_proofs.
+From AnemoVerif Require Import Base Utf8 Bincode Status Wire Rpc RpcTrace.
+From AnemoVerif.Proofs Require Import Rpc_proofs RpcTrace_proofs.
 
 (** For every number of streams on a connection, whatever bytes each carries, every schedule of
     writes (any chunking), deliveries, handler completions (any order), reads and abandonments: *)
@@ -26,6 +26,31 @@ Theorem C02_no_crosstalk : forall max handler c i l c' j,
   cstep max handler c i l = Some c' -> j <> i -> nth_error c' j = nth_error c j.
 Proof. exact no_crosstalk. Qed.
 
+(** Trace acceptance (the executed tie of Rpc.v): the per-RPC events recorded at both ends of a
+    connection (request written / finished, request decoded, handler returned, response finished,
+    response read, either side ending early) stand for model labels chosen by the stream's state
+    alone; a trace that [RpcTrace.erun] accepts is a run of the model, so the theorems above hold of
+    the states it reaches. *)
+Theorem C02_accepted_trace_is_model_run : forall max handler es c n c',
+  erun max handler c n es = (c', None) -> crun max handler c (sched_of max handler c es) = Some c'.
+Proof. exact erun_is_crun. Qed.
+
+Example C02_trace_ex :   (* a completed call and one abandoned while its handler runs, interleaved *)
+  let h (q : request) := mkResponse 1 Success [] (rq_body q) [] in
+  match enc_request 100 (mkRequest 1 [47] [] [1; 2] []), enc_request 100 (mkRequest 1 [47] [] [9] []) with
+  | Ok w1, Ok w2 =>
+      match erun 100 h [open_stream w1; open_stream w2] 0
+              [(0%nat, EWritten); (1%nat, EWritten); (1%nat, EFin); (1%nat, EDecoded); (0%nat, EFin); (0%nat, EDecoded);
+               (1%nat, ECallerEnd); (0%nat, EReturned); (1%nat, EServerEnd); (0%nat, EFinished); (0%nat, EResponse); (0%nat, EServerEnd)] with
+      | ([s1; s2], None) =>
+          cs s1 = CGot (Ok (mkResponse 1 Success [] [1; 2] [])) /\ ss s2 = SDropped /\ abandoned s2 = true
+          /\ invocations s1 = 1%nat /\ invocations s2 = 1%nat
+      | _ => False
+      end
+  | _, _ => False
+  end.
+Proof. vm_compute. repeat split. Qed.
+
 Example C02_ex :
   let h (q : request) := mkResponse 1 Success [] (rq_body q ++ rq_body q) [] in
   let r1 := mkRequest 1 [47] [] [1; 2] [] in
@@ -50,3 +75,4 @@ Proof. vm_compute. repeat split. Qed.
 Print Assumptions C02_at_most_once.
 Print Assumptions C02_pairing.
 Print Assumptions C02_no_crosstalk.
+Print Assumptions C02_accepted_trace_is_model_run.
